@@ -41,7 +41,13 @@ RULE = ("per transport, EXHAUSTIVE event sequences to depth 5 (quick) / 6 (thoro
         "do_pair_verify on the live connection, close}; every session-level operation and every pair of them in the middle of a session, then replays + random histories; observed on the wire by trial decryption under the accessory's "
         "keys, at the cipher, and at the listeners: per key no nonce twice, responses / events authenticated at most once and in the accessory's order - a new pair-verify legitimately restarts); "
         "IP pairing-level operations in the middle of a session (ip-session tokens s u L g n Z z: subscribe / unsubscribe / database / read / ensure_connection / zeroconf updates, each and each pair followed by a replay of every earlier frame); "
-        "BLE multi-session histories with the link lost (disconnected callback) or the pairing closed between exchanges. non-trivial = distinct event sequence")
+        "BLE multi-session histories with the link lost (disconnected callback) or the pairing closed between exchanges; "
+        "IP, the two byte streams of a session under EVERY segmentation (stream ip-reads: real HomeKitConnection get / put / post + SecureHomeKitProtocol + HTTP layer up to the owner, only the transport replaced; the accessory's stream = "
+        "authentic blocks of 0 / 1 / n / 1024 bytes holding parts of, one or several messages, replays of the latest / an earlier block, blocks after lost ones (future counter), blocks of the previous session, blocks with a bit flipped in the "
+        "length / ciphertext / tag, unsealed blocks also of length 0; cut into reads holding k complete blocks plus 1 byte / the length / part of the ciphertext / part of the tag of the next item, for every item, every k and every such "
+        "position, the whole stream in reads of n bytes, random cuts; requests of every size around the 1024-byte block boundaries, answered, unanswered, overlapping, cancelled, timed out; oracle on the harness's own record of what the "
+        "accessory sealed under which counter: the j-th block that authenticates is the j-th sealed, what reaches owner and callers is a duplicate-free prefix of what was sent, no (key, nonce) sealed twice and - by trial decryption under the "
+        "accessory's key - no counter on two blocks on the wire); whole IpPairing sessions on a network that coalesces frames and frame heads into single reads (ip-session tokens ( and )). non-trivial = distinct event sequence")
 TRUSTED = ["cryptography ChaCha20Poly1305 as the accessory's cipher", "asyncio closes the transport when data_received raises (mimicked by the in-memory transport)"]
 ASSUMPTIONS = ["distinct pair-verify / pair-resume runs give distinct keys (HKDF of a fresh shared secret): on BLE this is observed, not assumed - the multi-session stream numbers key sets by their key bytes; "
                "on IP and CoAP every connection runs a full pair-verify (C01 checks its keys against the accessory's)",
@@ -179,7 +185,8 @@ def run_ip_session(loop, evs, seed=0):
     pairing-level operations in the middle of a session: s / u IpPairing.subscribe / unsubscribe ; L
     list_accessories_and_characteristics ; g get_characteristics ; Z zeroconf reports the accessory again (same address:
     _async_description_update -> reconnect_soon on the live connection) ; z reports it at a new address ; n
-    connection.ensure_connection() on the live connection.
+    connection.ensure_connection() on the live connection ; ( the network starts holding back what it is given to
+    deliver ; ) everything held back arrives as ONE read (complete frames followed by the head of another, ...).
     `next` is harness bookkeeping only (how many frames were delivered in order so far) - the oracle does not use it.
     Everything keeps being delivered after a failure: whether anything is still accepted is up to the library.
     Returns the record the oracle works on."""
@@ -270,6 +277,9 @@ def run_ip_session(loop, evs, seed=0):
         tasks = {}
 
         def feed(data):
+            if state.get("cork") is not None:
+                state["cork"] += data  # the network holds it back: it will arrive together with what follows
+                return
             x = cur()
             if x is None or x["s"].t.closing or x["s"].t.closed:
                 return
@@ -372,6 +382,14 @@ def run_ip_session(loop, evs, seed=0):
                     if x is not None and x["n"] >= 1 and arg < len(rec["sessions"][x["n"] - 1]["frames"]):
                         state["partial"] = None
                         feed(rec["sessions"][x["n"] - 1]["frames"][arg])
+                elif k == "(":
+                    if state.get("cork") is None:
+                        state["cork"] = bytearray()
+                elif k == ")":
+                    held, state["cork"] = state.get("cork"), None
+                    if held:
+                        rec["stats"]["coalesced reads"] = rec["stats"].get("coalesced reads", 0) + 1
+                        feed(bytes(held))
                 elif k == "c":
                     live = [tk for tk in tasks.values() if not tk.done()]
                     if live:
@@ -525,6 +543,474 @@ def gen_ip_session_ops(rng):
             evs.append(rng.choice(["d0", "d0", "D"]))
         elif t in "Zzn" and rng.random() < 0.6:
             evs.extend(rng.choice([["d-1"], ["d-2"], ["d-3"], ["e", "d0"], ["q", "d0"], ["q", "d0", "d-1"], ["e", "d0", "d-2"]]))
+    return evs
+
+
+def ip_session_corked_histories():
+    """the network coalesces what it delivers: everything between `(` and `)` reaches the controller as ONE read -
+    complete frames followed by the head of another one (the next genuine frame, a replay of the one just delivered or
+    of an earlier one, a future frame), the rest of that frame in the next read, then more genuine traffic"""
+    pre = ["e", "d0", "q", "e", "E", "e"]
+    inner = ["d0", "d1", "d-1", "m0", "j"]
+    heads = ["h0", "h-1", "h-2", "h1"]
+    out = []
+    for d in (0, 1, 2):
+        for c in itertools.product(inner, repeat=d):
+            for h in heads:
+                for tail in (["r", "d0", "d0"], ["r", "D"]):
+                    out.append(pre + ["("] + list(c) + [h, ")"] + tail)
+    return out
+
+
+def gen_ip_session_corked(rng):
+    """random IP histories in which the network coalesces stretches of what it delivers into single reads"""
+    weighted = (["e"] * 4 + ["E"] + ["q"] * 3 + ["Q"] + ["d0"] * 10 + ["D"] + ["d1"] * 2 + ["d-1"] * 3 + ["d-2"] * 2 + ["d-3"] + ["m0", "m-1", "j"]
+                + ["h0"] * 3 + ["h-1"] * 3 + ["h-2", "h1"] + ["r"] * 4 + ["c", "T", "R", "o0", "o1", "s", "g", "Z"])
+    evs = [rng.choice(["e", "e", "q", "E"]) for _ in range(rng.randrange(1, 5))]
+    corked = False
+    for _ in range(rng.randrange(6, 30)):
+        if rng.random() < 0.22:
+            evs.append(")" if corked else "(")
+            corked = not corked
+        t = rng.choice(weighted)
+        evs.append(t)
+        if t[0] == "h" and corked and rng.random() < 0.7:
+            evs.extend([")", "r"])
+            corked = False
+    if corked:
+        evs.append(")")
+    return evs + rng.choice([[], ["r"], ["d0"], ["r", "d0", "D"]])
+
+
+# ---------------------------------------------------------------- IP, the accessory's byte stream under every segmentation into reads
+KEY_OLD = bytes(range(96, 128))  # the accessory-to-controller key of the PREVIOUS session
+
+
+class _ReadsSpyEnc(ipc.ChaCha20Poly1305Encryptor):
+    """same cipher; every (key, nonce) the controller seals with is recorded"""
+    sink = None
+
+    def __init__(self, key):
+        super().__init__(key)
+        self._c06_key = bytes(key)
+
+    def encrypt(self, aad, nonce, plaintext):
+        if _ReadsSpyEnc.sink is not None:
+            _ReadsSpyEnc.sink.append((self._c06_key, bytes(nonce)))
+        return super().encrypt(aad, nonce, plaintext)
+
+
+class _ReadsSpyDec(ipc.ChaCha20Poly1305Decryptor):
+    """same cipher; every ciphertext that authenticates is recorded (that is an acceptance, whatever it contains)"""
+    sink = None
+
+    def decrypt(self, aad, nonce, ciphertext):
+        pt = super().decrypt(aad, nonce, ciphertext)
+        if _ReadsSpyDec.sink is not None:
+            _ReadsSpyDec.sink.append(bytes(ciphertext))
+        return pt
+
+
+class _ReadsOwner:
+    """stands in for the IpPairing that owns the connection: records the events the connection hands over"""
+    name = "c06-reads"
+    description = None
+
+    def __init__(self, got):
+        self.got = got
+
+    async def connection_made(self, secure):
+        return None
+
+    def event_received(self, parsed):
+        try:
+            for ch in parsed["characteristics"]:
+                self.got.append(("e", ch.get("value")))
+        except Exception:  # noqa: BLE001
+            self.got.append(("e", repr(parsed)[:60]))
+
+
+class _ReadsConn(ipc.HomeKitConnection):
+    """the real connection object with the real reaction to a lost transport; only the connector is cut off - this
+    stream has one TCP connection and no network to reconnect to"""
+
+    def _start_connector(self):
+        pass
+
+
+async def _ip_reads_one(loop, evs, seed=0):
+    """One secure IP session seen as two byte streams.  The real HomeKitConnection (public entry points get / put /
+    post), the real SecureHomeKitProtocol and the real HTTP layer up to the owner's event_received; only the TCP
+    transport is replaced.  The harness is the accessory AND the network.
+    accessory   e / E it produces an EVENT message (small / spanning several blocks) into its outgoing plaintext ;
+                g it seals the next <= 1024 bytes of its outgoing plaintext (an event is produced when there is none)
+                under its next counter and hands the block to the network ; g<n> the same with exactly n bytes (g0: a
+                zero-length block) ; a request that arrives is answered by a response message in the outgoing plaintext
+    network     (every item is appended to the bytes in flight towards the controller)
+                p<k> a copy of the block sealed k blocks before the latest one (p0: the latest again) ; f<k> the
+                accessory seals k+1 blocks, the first k are lost (the controller sees a future counter) ; o<k> block k of
+                the previous session (other key) ; m<w> the next block with one bit flipped (w: 0/1 in the length, 2 first
+                / 3 middle byte of the ciphertext, 4 first / 5 last byte of the tag) ; x<n> a block of length n nobody sealed
+                /  everything in flight arrives as ONE read ; /<n> one read that ends n bytes into the most recent item
+                (n < 0: that many bytes before its end) - the bytes before it that are still in flight come with it ;
+                %<n> everything in flight arrives in reads of n bytes
+    callers     q<n> / Q<n> a request with a body of n bytes through put / post (get when n = 0) ; Q: the response spans
+                several blocks ; c the oldest caller still waiting is cancelled ; C the newest one ; T 31 s pass
+    Whatever is still in flight at the end arrives as one read.  Returns the record the oracle works on: the blocks the
+    accessory sealed in its order, the ciphertexts that authenticated at the controller, what reached the owner and the
+    callers, every (key, nonce) the controller sealed with and - by trial decryption under the accessory's key - the
+    counter of every block the controller put on the wire."""
+    import random as _r
+    from collections import Counter
+    rnd = _r.Random(seed)
+    net = simnet.Net(loop)
+    rec = {"auth": [], "old": {}, "aead": [], "nonces": [], "wire": [], "got": [], "msgs": [], "abandoned": set(), "reads": [], "items": [],
+           "stats": Counter(), "crash": None, "raised": []}
+    stats = rec["stats"]
+    _ReadsSpyEnc.sink, _ReadsSpyDec.sink = rec["nonces"], rec["aead"]
+    conn = _ReadsConn(_ReadsOwner(rec["got"]), ["10.0.0.1"], 80)
+    p = ipc.SecureHomeKitProtocol(conn, KEY_A2C, KEY_C2A)
+    t = simnet.FakeTransport(net, "10.0.0.1", p, loop)
+    conn.transport, conn.protocol, conn.connected_host, conn.host_header, conn.is_secure = t, p, "10.0.0.1", "Host: 10.0.0.1", True
+    p.connection_made(t)
+    # ---- the accessory
+    acc = {"out": bytearray(), "serial": 0, "rx": 0, "hi": 0, "dead": False, "buf": bytearray(), "big": set()}
+
+    def produce(kind, rid=None, pad=0):
+        mid = acc["serial"]
+        acc["serial"] += 1
+        rec["msgs"].append({"mid": mid, "kind": kind, "rid": rid})
+        acc["out"] += _http_msg(kind, mid, pad)
+
+    def seal(n=None):
+        out = acc["out"]
+        if n is None:
+            if not out:
+                produce("e")
+            n = min(len(out), 1024)
+        while len(out) < n:
+            produce("e")
+        chunk = bytes(out[:n])
+        del out[:n]
+        lb = struct.pack("<H", n)
+        blk = lb + ChaCha20Poly1305(KEY_A2C).encrypt(n_ip(len(rec["auth"])), chunk, lb)
+        rec["auth"].append(blk)
+        return blk
+
+    def on_write(tr, data):
+        """what the controller writes: per block, which counter was it sealed with?  (trial decryption under the
+        accessory's key, independent of the controller's own counters); the accessory itself is strict"""
+        buf = acc["buf"]
+        buf += data
+        plain = b""
+        while len(buf) >= 2:
+            n = struct.unpack("<H", buf[:2])[0]
+            if len(buf) < 2 + n + 16:
+                break
+            lb, body = bytes(buf[:2]), bytes(buf[2:2 + n + 16])
+            del buf[:2 + n + 16]
+            found = pt = None
+            for c in [acc["rx"]] + [c for c in range(acc["hi"] + 12) if c != acc["rx"]]:
+                try:
+                    pt = ChaCha20Poly1305(KEY_C2A).decrypt(n_ip(c), body, lb)
+                    found = c
+                    break
+                except InvalidTag:
+                    continue
+            rec["wire"].append((found, n))
+            if found is not None:
+                acc["hi"] = max(acc["hi"], found + 1)
+            if found == acc["rx"] and not acc["dead"]:
+                acc["rx"] += 1
+                plain += pt
+            else:
+                acc["dead"] = True  # the accessory closes its end of a session whose counters are out of step: no answer
+                stats["accessory refused a request block"] += 1
+        if plain and not acc["dead"]:
+            first = plain.split(b"\r\n", 1)[0].split(b" ")
+            tail = first[1].rsplit(b"/", 1)[-1] if len(first) > 1 else b""
+            rid = int(tail) if tail.isdigit() else None
+            produce("r", rid, rnd.choice([1100, 2300]) if rid in acc["big"] else 0)
+    net.handler = on_write
+    # ---- the network towards the controller
+    fl = {"buf": bytearray(), "start": 0, "len": 0}
+
+    def put(item, what):
+        fl["start"], fl["len"] = len(fl["buf"]), len(item)
+        fl["buf"] += item
+        rec["items"].append((what, len(item)))
+
+    def deliver(upto=None):
+        buf = fl["buf"]
+        upto = len(buf) if upto is None else max(0, min(len(buf), upto))
+        data = bytes(buf[:upto])
+        del buf[:upto]
+        fl["start"] -= upto
+        if data:
+            rec["reads"].append(len(data))
+            t.feed(data)
+    tasks = []
+    nreq = 0
+    try:
+        for ev in evs:
+            k, arg = ev[0], (int(ev[1:]) if len(ev) > 1 else None)
+            if k == "e":
+                produce("e")
+            elif k == "E":
+                produce("e", None, rnd.choice([1100, 2300]))
+            elif k == "g":
+                put(seal(arg), "g%d" % (len(rec["auth"]) - 1))
+            elif k == "p":
+                i = len(rec["auth"]) - 1 - (arg or 0)
+                if 0 <= i < len(rec["auth"]):
+                    put(rec["auth"][i], "replay of g%d" % i)
+            elif k == "f":
+                for _ in range(arg or 1):
+                    seal()
+                put(seal(), "g%d (g%d..g%d lost)" % (len(rec["auth"]) - 1, len(rec["auth"]) - 1 - (arg or 1), len(rec["auth"]) - 2))
+            elif k == "o":
+                body = _http_msg("e", 900000 + (arg or 0), 0)
+                lb = struct.pack("<H", len(body))
+                blk = lb + ChaCha20Poly1305(KEY_OLD).encrypt(n_ip(arg or 0), body, lb)
+                rec["old"][blk[2:]] = arg or 0
+                put(blk, "block %d of the previous session" % (arg or 0))
+            elif k == "m":
+                b = bytearray(seal())
+                pos = [0, 1, 2, len(b) // 2, len(b) - 16, len(b) - 1][(arg or 0) % 6]
+                b[pos] ^= 1 << rnd.randrange(8)
+                put(bytes(b), "g%d with a bit of byte %d flipped" % (len(rec["auth"]) - 1, pos))
+            elif k == "x":
+                n = arg or 0
+                put(struct.pack("<H", n) + bytes(rnd.randrange(256) for _ in range(n + 16)), "unsealed block of length %d" % n)
+            elif k == "/":
+                deliver(None if arg is None else fl["start"] + (arg if arg >= 0 else fl["len"] + arg))
+            elif k == "%":
+                while fl["buf"]:
+                    deliver(max(1, arg or 1))
+                    await asyncio.sleep(0)
+            elif k in "qQ":
+                rid = nreq
+                nreq += 1
+                if k == "Q":
+                    acc["big"].add(rid)
+                body = bytes(0x61 + (i + rid) % 26 for i in range(arg or 0))
+
+                async def caller(rid=rid, body=body):
+                    try:
+                        if not body:
+                            r = await conn.get(f"/r/{rid}")
+                        elif rid % 2:
+                            r = await conn.put(f"/r/{rid}", body)
+                        else:
+                            r = await conn.post(f"/r/{rid}", body)
+                    except asyncio.CancelledError:
+                        rec["abandoned"].add(rid)
+                        raise
+                    except BaseException as e:  # noqa: BLE001
+                        rec["abandoned"].add(rid)
+                        nm = "disconnected" if isinstance(e, AccessoryDisconnectedError) else type(e).__name__
+                        stats["request failed: " + nm] += 1
+                        return
+                    try:
+                        rec["got"].append(("r", json.loads(bytes(r.body)).get("m")))
+                    except Exception:  # noqa: BLE001
+                        rec["got"].append(("r", repr(bytes(r.body))[:60]))
+                tasks.append(asyncio.ensure_future(caller()))
+            elif k in "cC":
+                live = [tk for tk in tasks if not tk.done()]
+                if live:
+                    (live[0] if k == "c" else live[-1]).cancel()
+            elif k == "T":
+                await asyncio.sleep(31)
+            else:
+                raise ValueError(ev)
+            if k in "/%qQcCT":
+                await settle(loop)
+        deliver()
+        await settle(loop)
+        for tk in tasks:
+            tk.cancel()
+        await asyncio.gather(*tasks, return_exceptions=True)
+        t.close()
+        await settle(loop)
+    except ValueError:
+        raise
+    except Exception as e:  # noqa: BLE001
+        rec["crash"] = f"{type(e).__name__}: {str(e)[:120]}"
+        for tk in tasks:
+            tk.cancel()
+        await asyncio.gather(*tasks, return_exceptions=True)
+    finally:
+        _ReadsSpyEnc.sink = _ReadsSpyDec.sink = None
+    rec["raised"] = list(net.data_received_raised)
+    return rec
+
+
+def run_ip_reads(loop, evs, seed=0):
+    async def main():
+        with mock.patch.object(ipc, "ChaCha20Poly1305Encryptor", _ReadsSpyEnc), mock.patch.object(ipc, "ChaCha20Poly1305Decryptor", _ReadsSpyDec):
+            return await _ip_reads_one(loop, evs, seed)
+    return loop.run_until_complete(main())
+
+
+def oracle_ip_reads(rec):
+    """the property on the harness's own record of what the accessory sealed under which counter.  Accessory to
+    controller: the j-th block that authenticates is the j-th block the accessory sealed (each once, in its order, no
+    gap), whatever the cut of the byte stream into reads; nothing of another session and nothing unsealed authenticates;
+    what reaches the owner and the callers is, message for message, a duplicate-free prefix of what the accessory sent.
+    Controller to accessory: no (key, nonce) sealed twice, no counter on two blocks put on the wire."""
+    out = []
+    if rec["crash"]:
+        out.append(("ip-reads/unexpected-exception", f"the library raised outside any request or read: {rec['crash']}"))
+    by_ct = {blk[2:]: i for i, blk in enumerate(rec["auth"])}
+    layout = f"items on the wire {[w for w, _ in rec['items']]} (bytes {[n for _, n in rec['items']]}), reads of {rec['reads']} bytes"
+    trace = []
+    for j, ct in enumerate(rec["aead"]):
+        if ct in rec["old"]:
+            out.append(("ip-reads/accepts-earlier-session", f"block {rec['old'][ct]} of the previous session authenticated after {trace}; {layout}"))
+            break
+        i = by_ct.get(ct)
+        if i is None:
+            out.append(("ip-reads/accepts-unsealed-block", f"a block the accessory never sealed authenticated after {trace}; {layout}"))
+            break
+        trace.append("g%d" % i)
+        if i != j:
+            out.append(("ip-reads/accept-twice-or-out-of-order",
+                        f"the accessory sealed blocks g0..g{len(rec['auth']) - 1} under counters 0..{len(rec['auth']) - 1}; the controller accepted {trace} - g{i} was accepted when only g{j} could be next; {layout}"))
+            break
+    if len(set(rec["nonces"])) != len(rec["nonces"]):
+        ctrs = [struct.unpack("<LQ", n)[1] for _, n in rec["nonces"]]
+        out.append(("ip-reads/nonce-reuse", f"the controller sealed two blocks with one nonce under one key; counters in order: {ctrs}"))
+    onwire = [c for c, _ in rec["wire"] if c is not None]
+    if len(set(onwire)) != len(onwire):
+        out.append(("ip-reads/nonce-reuse-on-the-wire", f"two blocks the controller put on the wire open under the same counter of the accessory's key; counters in order: {[c for c, _ in rec['wire']]} (block lengths {[n for _, n in rec['wire']]})"))
+    want = [(m["kind"], m["mid"]) for m in rec["msgs"] if not (m["kind"] == "r" and m["rid"] in rec["abandoned"])]
+    got = rec["got"]
+    ev_got = [mid for kind, mid in got if kind == "e"]
+    ev_sent = [m["mid"] for m in rec["msgs"] if m["kind"] == "e"]
+    if len(set(map(repr, got))) != len(got) or set(map(repr, got)) != set(map(repr, want[:len(got)])) or ev_got != ev_sent[:len(ev_got)]:
+        out.append(("ip-reads/message-accepted-twice-or-out-of-order",
+                    f"the accessory sent messages {[m['kind'] + str(m['mid']) for m in rec['msgs']]} (responses whose caller had given up: {sorted(m['mid'] for m in rec['msgs'] if m['kind'] == 'r' and m['rid'] in rec['abandoned'])}); "
+                    f"the owner and the callers received {[k + str(v) for k, v in got]} - not a prefix of what was sent, each once, in order; {layout}"))
+    return out
+
+
+def account_ip_reads(ctx, rec, evs):
+    d = ctx.dist
+    d["ip-reads:blocks sealed by the accessory"] += len(rec["auth"])
+    d["ip-reads:blocks accepted"] += len(rec["aead"])
+    d["ip-reads:items on the wire"] += len(rec["items"])
+    d["ip-reads:reads"] += len(rec["reads"])
+    d["ip-reads:messages that reached the owner / callers"] += len(rec["got"])
+    d["ip-reads:blocks sealed by the controller"] += len(rec["nonces"])
+    d["ip-reads:blocks the controller put on the wire"] += len(rec["wire"])
+    d["ip-reads:full 1024-byte blocks on the wire"] += sum(1 for _, n in rec["wire"] if n == 1024)
+    d["ip-reads:requests whose last block holds 1..3 bytes"] += sum(1 for i, (_, n) in enumerate(rec["wire"]) if n <= 3 and i and rec["wire"][i - 1][1] == 1024)
+    # reads that end inside a block after at least one complete block (bookkeeping from the item lengths alone)
+    ends, pos = set(), 0
+    for _, n in rec["items"]:
+        pos += n
+        ends.add(pos)
+    pos, prev, inside = 0, 0, 0
+    for n in rec["reads"]:
+        prev, pos = pos, pos + n
+        if pos not in ends and any(prev < e <= pos for e in ends):
+            inside += 1
+    d["ip-reads:reads holding complete blocks and the head of another"] += inside
+    d["ip-reads:histories with a replay"] += any(t[0] == "p" for t in evs)
+    d["ip-reads:histories with requests"] += any(t[0] in "qQ" for t in evs)
+    for nm in rec["raised"]:
+        d["ip-reads:data_received raised " + nm] += 1
+    for k, v in rec["stats"].items():
+        d["ip-reads:" + k] += v
+
+
+IPR_CUTS = ["1", "2", "3", "40", "-16", "-8", "-1"]  # inside the length / the length exactly / the ciphertext / at the tag / inside the tag / all but one byte
+IPR_FAULTS = ["p0", "p1", "p2", "f1", "f2", "o0", "o1", "m0", "m1", "m2", "m3", "m4", "m5", "x0", "x3", "x40", "g0", "g1", None]
+
+
+def ip_reads_cut_histories(thorough=False):
+    """a authentic blocks, one item that is not the next authentic block (or is: a zero-length / one-byte block, or
+    nothing), b more authentic blocks; for every item i, every k >= 1 and every cut position: one read holding the k
+    complete items before item i and the head of item i, the items before them one per read, then the rest"""
+    out = []
+    for a in (1, 2, 3):
+        for b in ((0, 1, 2) if thorough else (0, 1)):
+            for fault in IPR_FAULTS:
+                if fault and fault[0] == "p" and int(fault[1:]) >= a:
+                    continue
+                items = ["g"] * a + ([fault] if fault else []) + ["g"] * b
+                for i in range(1, len(items)):
+                    for k in range(1, i + 1):
+                        for ci, cut in enumerate(IPR_CUTS):
+                            evs = []
+                            for it in items[:i - k]:
+                                evs += [it, "/"]
+                            evs += items[i - k:i + 1] + ["/" + cut]
+                            if (ci + i + k) % 2 or thorough:
+                                evs.append("/")
+                                for it in items[i + 1:]:
+                                    evs += [it, "/"]
+                            else:
+                                evs += items[i + 1:] + ["/"]
+                            out.append(evs)
+    # every read boundary at the same distance from the block boundaries: the whole stream in reads of n bytes
+    for fault in IPR_FAULTS:
+        for a in (1, 2):
+            if fault and fault[0] == "p" and int(fault[1:]) >= a:
+                continue
+            for n in (1, 2, 3, 17, 64, 127, 129, 130, 131, 200, 257):
+                out.append(["g"] * a + ([fault] if fault else []) + ["g", "g", "%%%d" % n])
+    # messages that span blocks, blocks that hold several messages, blocks of one byte, replays in the middle of a message
+    for cut in IPR_CUTS:
+        for rp in ("p0", "p1", "p3"):
+            out.append(["E", "g", "g", "g", "g", rp, "/" + cut, "/", "g", "/"])
+            out.append(["e", "e", "e", "g", "g40", "g1", "g0", rp, "/" + cut, "/", "g", "/"])
+            out.append(["q0", "g", rp, "/" + cut, "/", "g", "/"])
+            out.append(["Q5", "g", "g", rp, "/" + cut, "/", "g", "g", "/"])
+    return out
+
+
+def ip_reads_request_histories(rng):
+    """the controller-to-accessory direction: requests of every size around the block boundaries (the header takes
+    some 90..110 bytes, so bodies of 900..1000 / 1924..2024 bytes walk the last block through 1024 -> 1 bytes),
+    answered, unanswered, cancelled, timed out, overlapping"""
+    out = []
+    for n in list(range(900, 1000, 1)) + list(range(1930, 2030, 2)):
+        out.append(["q%d" % n, "g", "/", "q%d" % (n + 1), "g", "/", "q1", "g", "/"])
+    alpha = ["q0", "q1", "q940", "q1100", "Q2100", "A", "c", "C", "T", "p0"]
+    for d in (1, 2, 3):
+        for seq in itertools.product(alpha, repeat=d):
+            evs = []
+            for tkn in seq:
+                evs += ["g", "/"] if tkn == "A" else [tkn, "/"] if tkn == "p0" else [tkn]
+            out.append(evs + ["g", "/", "q1", "g", "/"])
+    return out
+
+
+def gen_ip_reads(rng):
+    """a random history over the whole vocabulary, with a read boundary drawn after most items"""
+    wire = (["g"] * 12 + ["g0", "g1", "g2", "g40", "g1024", "e", "e", "E"] + ["p0"] * 4 + ["p1"] * 2 + ["p2", "p3", "f1", "f2", "o0", "o1"]
+            + ["m%d" % w for w in range(6)] + ["x0", "x1", "x40", "x300"])
+    cuts = ["/"] * 4 + ["/" + c for c in IPR_CUTS] * 2
+    evs = []
+    for _ in range(rng.randrange(3, 16)):
+        r = rng.random()
+        if r < 0.12:
+            evs.append(rng.choice(["q", "q", "Q"]) + str(rng.choice([0, 1, 30, 200, rng.randrange(900, 1000), 1100, rng.randrange(1930, 2030), 3000])))
+            if rng.random() < 0.8:
+                evs += ["g"] + ([] if rng.random() < 0.4 else ["/"])
+        elif r < 0.16:
+            evs.append(rng.choice(["c", "C", "T"]))
+        else:
+            evs.append(rng.choice(wire))
+            r2 = rng.random()
+            if r2 < 0.55:
+                evs.append(rng.choice(cuts) if rng.random() < 0.8 else "/%d" % rng.randrange(1, 160))
+                if rng.random() < 0.3:
+                    evs.append(rng.choice(cuts))
+            elif r2 < 0.62:
+                evs.append("%%%d" % rng.choice([1, 2, 3, 5, 16, 18, 64, 100, 128, 130, 500, 1042, 1460]))
     return evs
 
 
@@ -1879,6 +2365,38 @@ def run(ctx: Ctx, driver: Driver):
             ctx.violation(sig, text, dict(case, signature=sig))
         if k == len(cseqs) - 1:
             ctx.sample(case)
+    # ------------- IP, the two byte streams of a session (drawn last: the streams above see the same random histories as before)
+    # accessory -> controller under every segmentation into reads; controller -> accessory with requests of every size
+    rseqs = ip_reads_cut_histories(ctx.thorough()) + ip_reads_request_histories(rng)
+    for _ in range(ctx.budget(1500, 40000)):
+        rseqs.append(gen_ip_reads(rng))
+
+    async def reads_batch():
+        with mock.patch.object(ipc, "ChaCha20Poly1305Encryptor", _ReadsSpyEnc), mock.patch.object(ipc, "ChaCha20Poly1305Decryptor", _ReadsSpyDec):
+            for k, evs in enumerate(rseqs):
+                case = {"stream": "ip-reads", "events": evs, "seed": ctx.seed * 100003 + k}
+                rec = await _ip_reads_one(loop, evs, seed=case["seed"])
+                ctx.evaluations += 1
+                ctx.nontrivial.add(("ip-reads", tuple(evs)))
+                account_ip_reads(ctx, rec, evs)
+                for sig, text in oracle_ip_reads(rec):
+                    ctx.violation(sig, text, case)
+                if k == len(rseqs) - 1:
+                    ctx.sample(case)
+    loop.run_until_complete(reads_batch())
+    # whole IP sessions (real IpPairing) on a network that coalesces what it delivers into single reads
+    sseqs = ip_session_corked_histories()
+    for _ in range(ctx.budget(150, 4000)):
+        sseqs.append(gen_ip_session_corked(rng))
+    for k, evs in enumerate(sseqs):
+        case = {"stream": "ip-session", "events": evs, "seed": ctx.seed * 100003 + 70000 + k}
+        rec = run_ip_session(loop, evs, seed=case["seed"])
+        ctx.evaluations += 1
+        ctx.nontrivial.add(("ip-session", tuple(evs)))
+        account_ip_session(ctx, rec)
+        ctx.dist["ip-session:histories with coalesced reads"] += 1
+        for sig, text in oracle_ip_session(rec):
+            ctx.violation(sig, text, case)
     loop.close()
 
 
@@ -1922,6 +2440,9 @@ def replay(ctx, driver, c):
     try:
         if c["stream"] == "ip-session":
             v = oracle_ip_session(run_ip_session(loop, list(c["events"]), seed=c.get("seed", 0)))
+            return v[0][1] if v else None
+        if c["stream"] == "ip-reads":
+            v = oracle_ip_reads(run_ip_reads(loop, list(c["events"]), seed=c.get("seed", 0)))
             return v[0][1] if v else None
         if c["stream"] == "coap-session":
             v = oracle_coap_session(run_coap_session(loop, list(c["events"]), seed=c.get("seed", 0)))
